@@ -27,7 +27,7 @@ func listenerProgram(r *mc.Run, steps int) func(x *mc.X) {
 			pc, _ := lc.ListenPacket(context.Background(), "udp", srv.String())
 			sock := pc.(*vnet.UDPConn)
 			mode := 0
-			var sends, wrong uint32
+			var sends uint32
 			var lastStamp time.Time
 			var late *vnet.TxStamp // a transmit timestamp the kernel has not delivered yet
 			desync := false        // the listener's expected id may lag the kernel's counter
@@ -42,12 +42,10 @@ func listenerProgram(r *mc.Run, steps int) func(x *mc.X) {
 				switch mode {
 				case 1:
 					return &vnet.TxStamp{None: true}
-				case 3:
+				case 2:
+					// delivered late: the entry reaches the queue just before the next packet's own
 					late = &vnet.TxStamp{TS: w.Clock.Peek().Add(3 * time.Microsecond), ID: sends}
 					return &vnet.TxStamp{None: true}
-				case 2:
-					wrong += 5
-					return &vnet.TxStamp{TS: w.Clock.Peek().Add(7 * time.Millisecond), ID: 900 + wrong}
 				}
 				lastStamp = w.Clock.Peek().Add(3 * time.Microsecond)
 				return &vnet.TxStamp{TS: lastStamp, ID: sends}
@@ -63,7 +61,7 @@ func listenerProgram(r *mc.Run, steps int) func(x *mc.X) {
 			for s := 0; s < steps; s++ {
 				ci := x.Choose(2, "client")
 				kind := x.Choose(2, "kind") // 0: interleaved on the newest exchange handed to this client (if any), 1: basic
-				mode = x.Choose(4, "errqueue")
+				mode = x.Choose(3, "errqueue")
 				stale := late != nil || sock.ErrQueueLen() > 0 // an older packet's entry will be read first
 				time.Sleep(time.Second)
 				var req ntp.Packet
@@ -151,5 +149,5 @@ func listenerProgram(r *mc.Run, steps int) func(x *mc.X) {
 
 func listenerLayer(r *mc.Run) {
 	r.Explore(mc.Config{Name: "listener/ip", Bound: -1}, listenerProgram(r, mc.Pick(r, 4, 5)))
-	r.Extra["rule_listener"] = fmt.Sprintf("real runIPServer over the in-memory network: all histories of %d requests over 2 clients x {interleaved on the newest exchange, basic} x error queue {own transmit timestamp, empty, entry of another packet, own timestamp delivered late (after the next send)}; the store snapshot after every request must hold the kernel transmit time or not hold the exchange", mc.Pick(r, 4, 5))
+	r.Extra["rule_listener"] = fmt.Sprintf("real runIPServer over the in-memory network: all histories of %d requests over 2 clients x {interleaved on the newest exchange, basic} x error queue {own transmit timestamp, none, own timestamp delivered late (queued just before the next reply's own entry)}; the store snapshot after every request must hold the kernel transmit time or not hold the exchange", mc.Pick(r, 4, 5))
 }
